@@ -264,6 +264,18 @@ def cls_single_tuple_trailing_comma(t, toks):
     return False
 
 
+def cls_nested_unary(t, toks):
+    """`- -x` (a sign applied to a signed operand) is printed `--x`, which the parser rejects (consecutive operators)"""
+    for x in walk(t):
+        if x[0] == 'N' and x[1] == "UnaryExpr":
+            kids = x[2]
+            if len(kids) >= 2 and kids[0][0] == 'T' and kids[0][1] in ("OpMinus", "OpSum"):
+                ft = first_token(kids[1])
+                if kids[1][0] == 'N' and kids[1][1] == "UnaryExpr" and ft is not None and ft[1] in ("OpMinus", "OpSum"):
+                    return True
+    return False
+
+
 # symptoms: parse (output has parse errors) ast (AST differs) comments idem tokens model
 ALL = {"parse", "ast", "comments", "idem", "tokens", "expr", "fmt-err"}
 CLASSES = {
@@ -272,10 +284,11 @@ CLASSES = {
     "if-condition-without-parenthesis": (cls_if_cond_word, ALL - {"comments"}),
     "lambda-without-parameters": (cls_lambda_no_params, ALL - {"comments"}),
     "multi-node-list-item": (cls_multi_node_list_item, ALL - {"comments"}),
-    "comment-on-reconstructed-token": (cls_comment_on_unprinted_trivia, {"comments", "idem"}),
+    "comment-on-reconstructed-token": (cls_comment_on_unprinted_trivia, {"comments"}),
     "comment-before-first-token-on-its-line": (cls_leading_block_comment, {"comments", "idem"}),
     "if-then-branch-starts-with-bracket": (cls_if_then_open, ALL - {"comments"}),
     "one-element-tuple": (cls_single_tuple_trailing_comma, ALL - {"comments"}),
+    "sign-of-signed-operand": (cls_nested_unary, ALL - {"comments"}),
 }
 
 
@@ -357,3 +370,501 @@ def run_harness(exe, reqs, timeout=900):
     with concurrent.futures.ThreadPoolExecutor(max_workers=shards) as ex:
         list(ex.map(work, chunks))
     return results
+
+
+# ------------------------------------------------------------------------------------------------
+# generator of fragment programs: a token list [(text, flags)] then a random layout
+# flags: 'post' = this token is a postfix opener (no line break may be put before it without changing the program)
+# ------------------------------------------------------------------------------------------------
+BINOPS = ["+", "-", "*", "/", "%", "^", "&&", "||", "==", "!=", "<", ">", "<=", ">=", "|>", "@"]
+NAMES = ["a", "b", "c", "x", "y", "z", "foo", "bar", "osc", "phase", "gain_db", "t1", "veryLongIdentifierName", "n0"]
+FNAMES = ["f", "g", "sin", "mix", "delayline", "make_probe"]
+
+
+class FGen:
+    def __init__(self, rng, risky=False):
+        self.r = rng
+        self.risky = risky      # also generate the constructs of the known finding classes
+        self.out = []
+
+    def t(self, s, *flags):
+        self.out.append((s, set(flags)))
+
+    def name(self):
+        return self.r.choice(NAMES)
+
+    def lit(self):
+        r = self.r.below(8)
+        if r == 0: self.t(str(self.r.below(1000)))
+        elif r == 1: self.t(f"{self.r.below(100)}.{self.r.below(100)}")
+        elif r == 2: self.t('"str %d"' % self.r.below(10))
+        elif r == 3: self.t("self")
+        elif r == 4: self.t("now")
+        elif r == 5: self.t("samplerate")
+        else: self.t(self.name())
+
+    def args(self, d, lo=0, hi=3, open_="(", close=")", post=False):
+        self.t(open_, *(["post"] if post else []))
+        n = self.r.range(lo, hi)
+        for i in range(n):
+            if i:
+                self.t(",")
+            self.expr(d - 1)
+        if n and self.risky and self.r.chance(1, 10):
+            self.t(",")     # trailing comma
+        self.t(close)
+
+    def primary(self, d):
+        r = self.r.below(16) if d > 0 else self.r.below(3)
+        if r < 3:
+            self.lit()
+        elif r < 6:        # call
+            self.t(self.r.choice(FNAMES))
+            self.args(d, post=True)
+            if self.r.chance(1, 8):
+                self.args(d, post=True)
+        elif r == 6:       # tuple
+            self.args(d, 2, 4)
+        elif r == 7:       # array
+            self.args(d, 0, 4, "[", "]")
+        elif r == 8:       # paren
+            self.t("(")
+            self.expr(d - 1)
+            self.t(")")
+        elif r == 9:       # field / projection / index
+            self.t(self.name())
+            for _ in range(self.r.range(1, 3)):
+                k = self.r.below(3)
+                if k == 0:
+                    self.t(".", "post"); self.t(self.name())
+                elif k == 1:
+                    self.t(".", "post"); self.t(str(self.r.below(3)))
+                    break      # `.0.1` would lex as a float
+                else:
+                    self.t("[", "post"); self.expr(d - 1); self.t("]")
+        elif r == 10:      # lambda
+            self.t("|")
+            n = self.r.range(0 if self.risky else 1, 3)
+            for i in range(n):
+                if i:
+                    self.t(",")
+                self.t(self.name())
+                if self.r.chance(1, 4):
+                    self.t(":"); self.t("float")
+            self.t("|")
+            if self.r.chance(1, 2):
+                self.block(d - 1)
+            else:
+                self.expr(d - 1, in_lambda=True)
+        elif r == 11:      # if
+            self.if_(d)
+        elif r == 12:      # block
+            self.block(d - 1)
+        elif r == 13:      # unary minus
+            self.t("-")
+            self.primary(d - 1)
+        elif r == 14 and self.risky:   # record / macro
+            if self.r.chance(1, 2):
+                self.t("{"); self.t(self.name()); self.t("="); self.expr(d - 1); self.t(","); self.t(self.name()); self.t("="); self.expr(d - 1); self.t("}")
+            else:
+                self.t(self.r.choice(FNAMES)); self.t("!"); self.args(d)
+        else:
+            self.lit()
+
+    def if_(self, d):
+        self.t("if")
+        if self.risky and self.r.chance(1, 3):
+            self.expr(d - 1)           # condition without parenthesis
+            self.block(d - 1)
+        else:
+            self.t("("); self.expr(d - 1); self.t(")")
+            k = self.r.below(4)
+            if k == 0:
+                self.block(d - 1)
+            elif k == 1 and self.risky:
+                self.args(d, 2, 3)     # then-branch starts with `(`
+            else:
+                self.nonopen(d - 1)
+        if self.r.chance(3, 4):
+            self.t("else")
+            k = self.r.below(4)
+            if k == 0:
+                self.block(d - 1)
+            elif k == 1:
+                self.if_(d - 1) if d > 1 else self.lit()
+            else:
+                self.expr(d - 1)
+
+    def nonopen(self, d):
+        """an expression that does not start with `(` or `[` or `-`"""
+        k = self.r.below(3)
+        if k == 0 or d <= 0:
+            self.lit()
+        elif k == 1:
+            self.t(self.r.choice(FNAMES)); self.args(d, post=True)
+        else:
+            self.lit(); self.t(self.r.choice(BINOPS[:8])); self.expr(d - 1)
+
+    def expr(self, d, in_lambda=False):
+        self.primary(d)
+        n = 0
+        while d > 0 and self.r.chance(2, 5) and n < 4:
+            self.t(self.r.choice(BINOPS))
+            self.primary(d - 1)
+            n += 1
+
+    def stmt(self, d, last):
+        r = self.r.below(10)
+        if r < 4:
+            self.t("let")
+            if self.r.chance(1, 5):
+                self.t("("); self.t(self.name()); self.t(","); self.t(self.name()); self.t(")")
+            elif self.r.chance(1, 8):
+                self.t("_")
+            else:
+                self.t(self.name())
+                if self.risky and self.r.chance(1, 6):
+                    self.t(":"); self.t("float")
+            self.t("=")
+            self.expr(d)
+        elif r < 6:
+            self.t(self.name()); self.t("="); self.expr(d)
+        else:
+            self.expr(d)
+        self.t("\n", "sep")
+
+    def block(self, d):
+        self.t("{")
+        n = self.r.range(0 if self.risky else 1, 3)
+        for i in range(n):
+            self.stmt(max(d, 0), i == n - 1)
+        self.t("}")
+
+    def program(self):
+        n = self.r.range(1, 3)
+        for i in range(n):
+            r = self.r.below(6)
+            if r < 4:
+                self.t("fn"); self.t(self.r.choice(FNAMES) + str(i)); self.t("(")
+                k = self.r.below(4)
+                for j in range(k):
+                    if j:
+                        self.t(",")
+                    self.t(self.name())
+                    if self.risky and self.r.chance(1, 5):
+                        self.t(":"); self.t("float")
+                self.t(")")
+                if self.risky and self.r.chance(1, 6):
+                    self.t("->"); self.t("float")
+                self.block(self.r.range(1, 3))
+                self.t("\n", "sep")
+            else:
+                self.stmt(self.r.range(1, 3), False)
+        return self.out
+
+
+def wordish(s):
+    return bool(s) and (s[-1].isalnum() or s[-1] in '_"')
+
+
+def layout(rng, toks, comments=True, risky=False):
+    """random layout of a token list: spaces, redundant blank lines, line breaks inside brackets / after operators,
+    `;` separators, line and block comments (numbered, so that their order is observable)"""
+    out = []
+    cn = [0]
+    depth = 0
+
+    def comment(kind):
+        cn[0] += 1
+        return f"/* c{cn[0]} */" if kind == 'B' else f"// c{cn[0]}"
+    prev = None
+    for i, (s, fl) in enumerate(toks):
+        if "sep" in fl:
+            r = rng.below(6)
+            sep = "\n" if r < 3 else ("\n\n" if r == 3 else (";" if r == 4 else " \n   "))
+            if comments and rng.chance(1, 6):
+                sep = " " + comment('L') + "\n" + (sep if sep != ";" else "")
+            out.append(sep)
+            prev = None
+            continue
+        if prev is not None:
+            pt = prev[0]
+            must = (wordish(pt) and (s[0].isalnum() or s[0] in '_"')) or (pt in BINOPS and s in ("-", "+")) or \
+                   (pt == "-" and s == "-") or (pt == "|" and s == "|") or (pt[-1:] == "|" and s[:1] in "|>") or \
+                   (pt == "/" and s[:1] in "/*") or (pt[-1:].isdigit() and s == ".") or (pt == "." and s[:1].isdigit()) or \
+                   (pt == "-" and s == ">") or (pt in "<>=!" and s[:1] == "=") or (pt == "&" and s == "&") or (pt == "<" and s == "-")
+            r = rng.below(20)
+            if "post" in fl:
+                gap = "" if r < 16 else " "
+                if comments and rng.chance(1, 30):
+                    gap = " " + comment('B') + " "
+            else:
+                if r < 9:
+                    gap = " "
+                elif r < 13:
+                    gap = "" if not must else " "
+                elif r < 15:
+                    gap = "   "
+                elif r < 18:
+                    # a line break where the grammar does not care (not before a postfix opener): after `,` `(` `[` operators
+                    # `=` `{`, before operators, ...
+                    gap = "\n" + " " * rng.below(9)
+                    if rng.chance(1, 4):
+                        gap = "\n" + gap
+                else:
+                    gap = " "
+                if comments and rng.chance(1, 14):
+                    on_reconstructed = pt in (",", "{", "}")
+                    if not on_reconstructed or risky or rng.chance(1, 8):
+                        if rng.chance(1, 2):
+                            gap = " " + comment('B') + gap
+                        else:
+                            gap = " " + comment('L') + "\n" + " " * rng.below(5)
+            if must and gap == "":
+                gap = " "
+            out.append(gap)
+        out.append(s)
+        prev = (s, fl)
+    src = "".join(out)
+    if comments and rng.chance(1, 10):
+        src = comment('L') + "\n" + src
+    if rng.chance(1, 2) and not src.endswith("\n"):
+        src += "\n"
+    return src
+
+
+def gen_source(rng, risky=False):
+    g = FGen(rng, risky)
+    toks = g.program()
+    return layout(rng, toks, comments=True, risky=risky)
+
+
+# ------------------------------------------------------------------------------------------------
+# layout / comment mutations of an existing source (token texts from the harness locate the gaps)
+# ------------------------------------------------------------------------------------------------
+def gaps_of(src, toks):
+    """[(start, end)] of the whitespace / line-break gaps between consecutive non-trivia-or-comment tokens"""
+    pos = 0
+    spans = []
+    for t in toks:
+        if t == "N":
+            continue
+        text = t[1:].split("\x1f", 1)[1] if t[0] == 'T' else t[1:]
+        j = src.find(text, pos)
+        if j < 0:
+            return None
+        spans.append((j, j + len(text), t))
+        pos = j + len(text)
+    gaps = []
+    for (a0, a1, ta), (b0, b1, tb) in zip(spans, spans[1:]):
+        gaps.append((a1, b0, ta, tb))
+    return gaps
+
+
+def mutate_layout(rng, src, toks, n_mut=None):
+    gaps = gaps_of(src, toks)
+    if not gaps:
+        return None
+    n_mut = n_mut or rng.range(1, max(2, len(gaps) // 6))
+    chosen = {}
+    cn = 0
+    for _ in range(n_mut):
+        gi = rng.below(len(gaps))
+        a, b, ta, tb = gaps[gi]
+        g = src[a:b]
+        if ta[0] == 'L':
+            continue       # the gap after a line comment starts with its line break
+        after = ta[1:].split("\x1f", 1)[1] if ta[0] == 'T' else ""
+        before_k = tb[1:].split("\x1f", 1)[0] if tb[0] == 'T' else ""
+        has_nl = ("\n" in g) or (";" in g)
+        r = rng.below(8)
+        cn += 1
+        if has_nl:
+            if r == 0: new = g + "\n"
+            elif r == 1: new = "\n" + " " * rng.below(12)
+            elif r == 2: new = " // m%d" % cn + g
+            elif r == 3: new = " /* m%d */" % cn + g
+            elif r == 4: new = g + "/* m%d */ " % cn
+            elif r == 5: new = "\n\n\n"
+            elif r == 6: new = ";" if g.strip(" \t\r\n") == "" and rng.chance(1, 2) else g
+            else: new = g.replace("\n", "\n  ")
+        else:
+            if r == 0: new = g + "  "
+            elif r == 1: new = " /* m%d */ " % cn
+            elif r == 2 and g != "": new = " "
+            elif r in (3, 4, 5) and before_k not in ("ParenBegin", "ArrayBegin", "Dot") and g != "":
+                new = "\n" + " " * rng.below(10)       # a line break where the grammar does not care
+            elif r == 6 and (after in (",", "(", "[") or after in BINOPS):
+                new = " // m%d\n " % cn
+            else:
+                new = g
+        chosen[gi] = new
+    out = []
+    last = 0
+    for gi, (a, b, _, _) in enumerate(gaps):
+        if gi in chosen:
+            out.append(src[last:a])
+            out.append(chosen[gi])
+            last = b
+    out.append(src[last:])
+    return "".join(out)
+
+
+# ------------------------------------------------------------------------------------------------
+# interactive harness client + shrinker (token-range deletion keeping "valid input, same unexplained symptom")
+# ------------------------------------------------------------------------------------------------
+class Client:
+    def __init__(self, exe):
+        self.exe = exe
+        self.p = None
+
+    def ask(self, req):
+        for _ in range(2):
+            if self.p is None or self.p.poll() is not None:
+                self.p = subprocess.Popen([self.exe], stdin=subprocess.PIPE, stdout=subprocess.PIPE, stderr=subprocess.DEVNULL, text=True)
+            try:
+                self.p.stdin.write(json.dumps(req) + "\n")
+                self.p.stdin.flush()
+                l = self.p.stdout.readline()
+                if l:
+                    return json.loads(l)
+            except (BrokenPipeError, ValueError):
+                pass
+            self.p = None
+        return {"crash": "died"}
+
+    def close(self):
+        if self.p is not None:
+            try:
+                self.p.stdin.close()
+                self.p.wait(timeout=5)
+            except Exception:
+                self.p.kill()
+
+
+def classes_of(ans_in, findings=None):
+    t = parse_cst(ans_in["cst"])
+    return [n for n, (p, ex) in CLASSES.items() if (findings is None or n in findings) and p(t, ans_in["toks"])]
+
+
+def unexplained(ans, findings=None):
+    """{(w,i): symptoms not explained by a known class}, classes present; None when the input is not a valid program"""
+    if "in" not in ans or ans["in"]["cst_errs"] > 0:
+        return None, []
+    cl = classes_of(ans["in"], findings)
+    expl = set()
+    for n in cl:
+        expl |= CLASSES[n][1]
+    bad = {}
+    for run in ans["runs"]:
+        s = symptoms(ans["in"], run) - expl
+        if s:
+            bad[(run["w"], run["i"])] = s
+    return bad, cl
+
+
+def shrink(client, src, key, want, findings=None, path=None, budget=400):
+    """smallest source found (deleting token ranges / lines) that is still valid and still shows symptom `want` at config `key`
+    outside every known class"""
+    w, i = key
+
+    def test(s):
+        a = client.ask({"m": "fmt", "src": s, "widths": [w], "indents": [i], "cst": True, "path": path})
+        bad, _ = unexplained(a, findings)
+        return bool(bad) and want in bad.get((w, i), set())
+    best = src
+    n_tests = 0
+    # pieces: split keeping separators
+    for splitter in (r'(\n)', r'(\s+|[(),\[\]{}])'):
+        parts = [p for p in re.split(splitter, best) if p != ""]
+        chunk = max(1, len(parts) // 2)
+        while chunk >= 1 and n_tests < budget:
+            k = 0
+            changed = False
+            while k < len(parts) and n_tests < budget:
+                cand = parts[:k] + parts[k + chunk:]
+                s = "".join(cand)
+                n_tests += 1
+                if s != best and test(s):
+                    parts = cand
+                    best = s
+                    changed = True
+                else:
+                    k += chunk
+            if not changed:
+                chunk //= 2
+    return best
+
+
+# ------------------------------------------------------------------------------------------------
+# model side (extracted Coq model, ocaml/fmt_drv.ml)
+# ------------------------------------------------------------------------------------------------
+def esc(s):
+    return s.replace("\\", "\\\\").replace("\n", "\\n").replace("\r", "\\r").replace("\t", "\\t")
+
+
+def unesc(s):
+    out, i = [], 0
+    while i < len(s):
+        if s[i] == "\\" and i + 1 < len(s):
+            i += 1
+            out.append({"n": "\n", "r": "\r", "t": "\t"}.get(s[i], s[i]))
+        else:
+            out.append(s[i])
+        i += 1
+    return "".join(out)
+
+
+def leading_comments(toks):
+    """cst_print.rs extract_file_leading_comments: every comment before the first syntax token, each followed by a newline"""
+    out = []
+    for t in toks:
+        if t[0] == 'T':
+            break
+        if t[0] in "LB":
+            out.append(t[1:] + "\n")
+    return "".join(out)
+
+
+def model_requests(ans):
+    """one driver line per run of a harness answer (cst dump of the source required)"""
+    lines = []
+    lead = leading_comments(ans["in"]["toks"])
+    for run in ans["runs"]:
+        if run["st"] != "ok":
+            continue
+        out = run["out"]
+        body = out[len(lead):] if out.startswith(lead) else None
+        lines.append((run, "\t".join([str(run["i"]), ans["in"]["cst"], esc(body if body is not None else "\x00"),
+                                      run.get("o", {}).get("cst", "-")])))
+    return lines
+
+
+def run_model(exe, lines, timeout=900):
+    if not lines:
+        return []
+    shards = min(NPROC, max(1, len(lines) // 16))
+    chunks = [lines[i::shards] for i in range(shards)]
+    res = {}
+
+    def work(k):
+        text = "\n".join(chunks[k]) + "\n"
+        p = subprocess.run([exe], input=text, stdout=subprocess.PIPE, stderr=subprocess.PIPE, text=True, timeout=timeout)
+        outs = [l for l in p.stdout.split("\n") if l]
+        return p.returncode, outs
+    with concurrent.futures.ThreadPoolExecutor(max_workers=shards) as ex:
+        for k, (rc, outs) in enumerate(ex.map(work, range(shards))):
+            if rc != 0 or len(outs) != len(chunks[k]):
+                raise RuntimeError(f"model driver failed rc={rc} answered={len(outs)}/{len(chunks[k])}")
+            for j, o in enumerate(outs):
+                res[k + j * shards] = o
+    return [res[i] for i in range(len(lines))]
+
+
+def parse_model_answer(l):
+    if l.startswith("E"):
+        return {"err": l[1:]}
+    f = l.split("\t")
+    ws = lambda s: [unesc(x) for x in s.split("\x1f")] if s else []
+    return {"frag": f[0] == "F1", "admits": f[1] == "A1", "safe": f[2] == "S1", "samedoc": f[3][1:],
+            "dwords": ws(f[4]) if len(f) > 4 else [], "cwords": ws(f[5]) if len(f) > 5 else []}
